@@ -35,6 +35,10 @@ CORRUPTIONS = {
     "fullwidth_letter_section": lambda l: "Ａ" + l[1:],
     "fullwidth_underscore": lambda l: l[:3] + "＿" + l[4:],
     "typographic_close_quote": lambda l: l[:-1] + "”",
+    # invisible characters a tolerant decoder or strip() would swallow
+    "byte_order_mark": lambda l: "\ufeff" + l,
+    "zero_width_space": lambda l: l[:3] + "\u200b" + l[3:],
+    "trailing_nbsp": lambda l: l + "\u00a0",
 }
 
 
@@ -252,7 +256,7 @@ def run(res, tier, seed):
         "well-formed: baseline; 7 free-text keys x 7 value shapes; CRLF / no final newline; all rotations, adjacent transpositions,"
         " reversal; all permutations within each section (<=5 lines); 3..10 product files (also reversed); 1..3 shape indices -"
         " each through open_alos2 and compared with the summary reference model. Malformed: all 4095 non-empty subsets of a 12-line"
-        " summary x 14 corruption kinds (4 of them with non-ASCII letters / underscore / quote) + all kind pairs on 2-subsets through summary.open_summary; one kind per subset size and all"
+        " summary x 17 corruption kinds (7 of them with non-ASCII letters / underscore / quote / invisible characters incl. a byte order mark) + all kind pairs on 2-subsets through summary.open_summary; one kind per subset size and all"
         " single lines through open_alos2. Every corrupted line is rejected by an independent line recogniser (asserted)."
     )
     res.assumptions = ["values are printable ASCII without line separators", "the numbering base of reported lines is not fixed by the property (0 or 1 accepted, but one base per report)"]
